@@ -15,7 +15,7 @@ from textwrap import dedent
 from types import TracebackType
 
 from .selector import Element, check_element
-from .tags import enter_tag, exit_tag, get_tags
+from .tags import Tag, TagSet, enter_tag, exit_tag, get_tags
 from .utils import ABSENT, DictPile
 
 _IDX = count()
@@ -361,7 +361,15 @@ class PteraTransformer(NodeTransformer):
     def make_interaction(self, target, ann, value, orig=None, expression=False):
         """Create code for setting the value of a variable."""
         if ann and isinstance(target, ast.Name):
-            self.annotated[target.id] = self._evaluate(ann)
+            evaluated = self._evaluate(ann)
+            previous = self.annotated.get(target.id, None)
+            if isinstance(previous, (Tag, TagSet)) and isinstance(
+                evaluated, (Tag, TagSet)
+            ):
+                # The variable is annotated at several places: remember all
+                # the tags, so that selectors on any of them can match
+                evaluated = previous & evaluated
+            self.annotated[target.id] = evaluated
             self.linenos[target.id] = target.lineno
         ann_arg = ann if ann else ast.Constant(value=None)
         value_arg = self._get("ABSENT") if value is None else value
